@@ -134,6 +134,15 @@ pub fn space(thorough: bool) -> Vec<Prog> {
             out.push(build(vec![], vec![], cs, false, format!("pair|c={a},{b}")));
         }
     }
+    // wide: 66-70 entries of one stage in one module (names unique by index)
+    {
+        let cs: Vec<CEntry> = (0..70).map(|i| CEntry { name: format!("wide_cs_{i}"), size: i % C_SIZES.len() }).collect();
+        out.push(build(vec![], vec![], cs, true, "wide|c=70".to_string()));
+        let fs: Vec<FEntry> = (0..66).map(|i| FEntry { name: format!("wide_fs_{i}"), shape: i % F_SHAPES.len() }).collect();
+        out.push(build(vec![], fs, vec![], false, "wide|f=66".to_string()));
+        let vs: Vec<VEntry> = (0..66).map(|i| VEntry { name: format!("wide_vs_{i}"), params: V_PARAMS[i % 7].to_vec() }).collect();
+        out.push(build(vs, vec![], vec![], false, "wide|v=66".to_string()));
+    }
     // several entries per stage
     let counts: &[usize] = if thorough { &[2, 3] } else { &[2] };
     for &k in counts {
